@@ -78,9 +78,9 @@ CLAIMED = {
             "The scratch copy of the package is rewritten (cmd/vinstr) so that go/chan/select/WaitGroup/atomic operations are scheduling points of vsched (one thread runs at a time; a second point after every receive lets a writer overtake a reader that already owns a slot). For 10 (thorough 11) documents above 8 KiB needing 6..40 index buffers (valid, stage-2 error in the first / last buffer, stage-1 error early / late, both, NDJSON with blank lines, tail without structurals, just above the threshold; aperiodic content so a slot reused too early changes the outcome) every interleaving of producer and consumer with <= 2 (3) preemptions is executed unpruned, and every interleaving outright with pruning on an exact state key. Outcome must equal the default schedule's, which is checked against the grammar model and reference tree; deadlock (no enabled thread), livelock (step horizon) and panics are violations.",
             "Granularity = synchronisation operations; kernels between two points are atomic; plain-memory races / weak memory are not modelled (free-running -race pass in C20 supports data-race freedom). Layer B (TLA+ model + conformance) not built.",
             "DESIGN.md 4.7"),
-    "C09": ("model checking of the source-instrumented ParseNDStream under a controlled scheduler (DFS over all interleavings with state-key pruning) crossed with exhaustively enumerated reader fragmentations, reader faults and reuse decisions",
-            "Per stream (7 quick / 8 thorough: 1-4 documents, blank lines leading/between/doubled/trailing, CRLF, no final newline, empty, white-space only): every single reader cut x 4 (8) configurations of GOMAXPROCS {1,3}, result-channel capacity {0,2}, recycle all/none; every pair (thorough: triple) of cuts in the base configuration; a reader fault after every byte count with and without data (thorough: x every single cut); mixed recycle masks; real 10 MiB constant. For each environment vector EVERY interleaving of consumer, forwarder, reader and chunk parsers is covered (unbounded DFS; interleavings reaching an already expanded state key are cut). Stream-model oracle: documents in order, exactly one io.EOF, close, nothing after an error; fault: prefix + reader's error + close; kept values unchanged at the end.",
-            "State key = per-thread progress + hash of everything each thread received + channel contents by value identity + pool sizes; threads are deterministic functions of what they observe. Chunk constant scaled to 64 bytes via a run-time knob for the exhaustive part. Plain-memory races: see C20 race pass.",
+    "C09": ("stateless model checking of the source-instrumented ParseNDStream under a controlled scheduler: deviation-bounded DFS (no state merging) crossed with exhaustively enumerated reader fragmentations, reader faults, EOF-with-data answers and reuse decisions",
+            "Per stream (8 quick / 9 thorough: 1-4 documents, blank lines leading/between/doubled/trailing, CRLF, no final newline, empty, white-space only, six one-line documents): every single reader cut x 4 (8) configurations of GOMAXPROCS {1,3}, result-channel capacity {0,2}, recycle all/none; every pair (thorough: triple) of cuts in the base configuration; a reader fault after every byte count with and without data (thorough: x every single cut); the last bytes returned together with io.EOF; mixed recycle masks; real 10 MiB constant. For each environment vector every schedule of consumer, forwarder, reader and chunk parsers with <= 2 (thorough 3) deviations from the deterministic default scheduler is executed (a deviation = any non-default scheduling or pool answer); the six-chunk all-recycled scenario with <= 3 deviations; the smallest streams additionally with every interleaving (unbounded, state-key pruning). Stream-model oracle: documents in order, exactly one io.EOF, close, nothing after an error; fault: prefix + reader's error + close; kept values unchanged at the end.",
+            "Deviation bound instead of all interleavings (an earlier all-interleavings search with state-key pruning proved unsound: see DESIGN.md 9). Chunk constant scaled to 64 bytes via a run-time knob for the exhaustive part. Plain-memory races: see C20 race pass.",
             "DESIGN.md 4.9"),
     "C20": ("stateless model checking of the source-instrumented package under a controlled scheduler (all interleavings between goroutine families up to a preemption bound, pool answers enumerated) + auxiliary free-running -race pass",
             "2 (thorough also 3) goroutines each run 1-2 operations on their own objects (Parse small / concurrent-path, ParseND, Clone+edit, Serialize in 3 compressed modes + Deserialize, Deserialize of 2 blobs, traverse+marshal): all 55 unordered pairs of single operations plus 20 pairs of two-operation programs around the shared pools. Scheduling points at every operation on an object two goroutine families share (package-level sync.Pools incl. a point after every Put, the Once, shared channels), at blocking and at thread exit; every interleaving with <= 1 (2) preemptions, recycled-vs-new pool answers enumerated, pools start with one pooled object. Each goroutine must observe exactly what it observes alone; no deadlock/livelock/panic. The claim 'free of data races' is carried by a separate free-running pass of the same operations (plus ParseNDStream) built with -race: a race report or result mismatch there is a violation.",
